@@ -328,6 +328,7 @@ def run_impl(case, arrays=None, raw=None):
         out["xprime"] = rc.rank[-1][0].tolist()
     if rc.rank:
         out["mrank"] = rc.rank[-1][1]
+    out["pinv_called"] = bool(rc.pinv)
     out["inputs_modified"] = not (all(np.array_equal(a, b) for a, b in zip(tr, tr0))
                                   and all(np.array_equal(a, b) for a, b in zip(te, te0))
                                   and len(tr) == len(tr0) and len(te) == len(te0))
@@ -805,6 +806,161 @@ def metamorphic(ctx, rng, quick, stats):
     stats["metamorphic_passed"] += 1
 
 
+# ---------------------------------------------------------------- rank-deficient, tiny alpha
+PINV_RCOND = 1e-15          # numpy.linalg.pinv's documented default
+
+
+def gen_deficient_case(rng, quick):
+    """Fewer training structures than features and alpha in 1e-22..1e-15: XX + alpha I is
+    numerically singular and numpy.linalg.pinv truncates.  Two sub-families: "span" - every test
+    row is a combination of the training structure means, so x (XX + alpha I)^-1 x^T =
+    c^T K (K + alpha I)^-1 c with K = Xs Xs^T (n x n, well conditioned): the closed form, strict
+    positivity and monotonicity in alpha are numerically meaningful; "generic" - arbitrary test
+    rows and component partitions: only 1/(x pinv(Xprime) x^T) and positivity are."""
+    dmax, emax = (8, 6) if quick else (12, 8)
+    for _ in range(200):
+        d = rng.randint(3, dmax)
+        n = rng.randint(1, d - 1)
+        fam = rng.choice(["gauss", "offset", "lattice", "gauss"])
+        scale = 10.0 ** rng.uniform(-3, 3) if rng.random() < 0.5 else 1.0
+        train = [_rows(rng, rng.randint(1, emax), d, fam, [], scale) for _ in range(n)]
+        M = np.array([np.mean(np.array(st), axis=0) for st in train])
+        sub = rng.choice(["span", "generic"])
+        nt = rng.randint(1, 4)
+        if sub == "span":
+            test, coef = [], []
+            for _k in range(nt):
+                cs = [[rng.gauss(0, 1) for _ in range(n)] if rng.random() < 0.7 else
+                      [1.0 if j == rng.randrange(n) else 0.0 for j in range(n)]
+                      for _ in range(1 if rng.random() < 0.4 else rng.randint(1, emax))]
+                cs = [c if any(c) else [1.0] + [0.0] * (n - 1) for c in cs]
+                test.append([[float(x) for x in (np.array(c) @ M)] for c in cs])
+                coef.append(cs)
+            comp_dims = [d]
+        else:
+            test = [_rows(rng, 1 if rng.random() < 0.3 else rng.randint(1, emax), d, fam, [], scale) for _ in range(nt)]
+            comp_dims, coef = _composition(rng, d), None
+        if not _blocks_nonzero(train, test, comp_dims):
+            continue
+        Xa = np.vstack([np.array(st) for st in train])
+        sf = math.sqrt(float(np.mean(Xa ** 2, axis=0).sum()))
+        K = (M / sf) @ (M / sf).T
+        ev = np.linalg.eigvalsh(K)
+        if ev.min() <= 0 or ev.max() / ev.min() > 1e6:
+            continue
+        alpha = 10.0 ** rng.uniform(-22, -15)
+        return dict(kind=rng.choice(["lpr", "cpr", "cpr"]), train=train, test=test, alpha=alpha,
+                    comp_dims=comp_dims, family=fam, scale=scale, rank_only=True, int_dtype=False,
+                    deficient=sub, coef=coef)
+    return None
+
+
+def _retained_kappa(Xs, alpha):
+    sv = np.linalg.svd(Xs.T @ Xs + alpha * np.eye(Xs.shape[1]), compute_uv=False)
+    kept = sv[sv > PINV_RCOND * sv.max()]
+    return float(kept.max() / kept.min())
+
+
+def deficient_oracle(case, rec, rec_hi=None, stats=None):
+    """(message, is_property_failure) or (None, None).  Reference 1: 1/(x P x^T) with
+    P = numpy.linalg.pinv(Xprime) (default rcond) on the Xprime formed here; tolerance
+    1e-8 + 1024*eps*kappa_r, kappa_r = condition number of the spectrum pinv RETAINS (the code
+    forms P explicitly, so x P x^T carries an error ~ eps*kappa_r: when the alpha-directions are
+    just above the cut-off, kappa_r ~ 1e15 and nothing is comparable - skipped and counted when
+    kappa_r > 1e10).  Reference 2 (span): the n x n kernel form of the closed form, tolerance
+    1e-6 + 1024*eps*(cond(K) + kappa_r), and no decrease towards 30*alpha (kappa_r of both).
+    Finite and > 0 whenever kappa_r <= 1e13."""
+    if "error" in rec:
+        return "call raised %s: %s" % (rec["error"], rec.get("error_msg")), True
+    d = len(case["train"][0][0])
+    tr = [np.array(st, dtype=float).reshape(len(st), d) for st in case["train"]]
+    te = [np.array(st, dtype=float).reshape(len(st), d) for st in case["test"]]
+    Xa = np.vstack(tr)
+    sf = math.sqrt(float(np.mean(Xa ** 2, axis=0).sum()))
+    Xs = np.vstack([np.mean(st / sf, axis=0) for st in tr])
+    Xp = Xs.T @ Xs + case["alpha"] * np.eye(d)
+    sv = np.linalg.svd(Xp, compute_uv=False)
+    kept = sv[sv > PINV_RCOND * sv.max()]
+    kappa = float(kept.max() / kept.min())
+    P = np.linalg.pinv(Xp)
+    comp = case["comp_dims"] if case["kind"] == "cpr" else [d]
+    idx = np.cumsum([0] + list(comp))
+    masks = []
+    for c in range(len(comp)):
+        m = np.zeros(d)
+        m[idx[c]:idx[c + 1]] = 1
+        masks.append(m)
+    span = case["deficient"] == "span"
+    if span:
+        K = Xs @ Xs.T
+        condK = float(np.linalg.cond(K))
+        Kreg = K + case["alpha"] * np.eye(len(K))
+
+    Pmax = float(np.abs(P).max())
+
+    def ref_pinv(x):
+        # a (masked) row orthogonal to every retained direction: x P x^T cancels to 0 or to
+        # rounding noise; the code returns +inf or a huge value - nothing to compare (None)
+        q = float(x @ P @ x)
+        if q <= 1e-10 * float(x @ x) * Pmax:
+            return None
+        return 1.0 / q
+
+    def ref_kernel(c):
+        c = np.array(c)
+        return 1.0 / float(c @ K @ np.linalg.solve(Kreg, c))
+    rt1 = 1e-8 + 1024 * EPS * kappa
+    comparable = kappa <= 1e10
+    if stats is not None and not comparable:
+        stats["deficient_skipped_illconditioned"] = stats.get("deficient_skipped_illconditioned", 0) + 1
+    entries = []      # (label, value, pinv reference, kernel reference or None)
+    if case["kind"] == "lpr":
+        out = rec["lpr"]
+        if [len(a) for a in out] != [len(st) for st in te]:
+            return "LPR list lengths differ from the environment counts", True
+        for si, (st, a) in enumerate(zip(te, out)):
+            for ri, (x, v) in enumerate(zip(st, a)):
+                entries.append(("LPR", v, ref_pinv(x / sf), ref_kernel(case["coef"][si][ri]) if span else None))
+    else:
+        lc, cp = rec["lcpr"], rec["cpr"]
+        if [len(a) for a in lc] != [len(st) for st in te] or len(cp) != len(te):
+            return "LCPR/CPR shapes do not follow the test structures", True
+        for si, (st, a) in enumerate(zip(te, lc)):
+            mean = st.mean(axis=0) / sf
+            for c, m in enumerate(masks):
+                for ri, (x, row) in enumerate(zip(st, a)):
+                    entries.append(("LCPR", row[c], ref_pinv(x / sf * m),
+                                    ref_kernel(case["coef"][si][ri]) if span else None))
+                entries.append(("CPR", cp[si][c], ref_pinv(mean * m),
+                                ref_kernel(np.mean(np.array(case["coef"][si]), axis=0)) if span else None))
+    if kappa <= 1e13:
+        for lab, v, w1, w2 in entries:
+            if w1 is None and w2 is None:
+                # the unchanged code returns +inf, or +-1e16 from a denominator that cancelled to
+                # rounding noise of either sign (seen on /repo: an integer test row exactly
+                # orthogonal to the single training mean gave -4.2e16): counted, never judged
+                if stats is not None:
+                    stats["deficient_degenerate_entries"] = stats.get("deficient_degenerate_entries", 0) + 1
+                continue
+            if not (v > 0 and math.isfinite(v)):
+                return "%s entry %r is not strictly positive and finite (rank-deficient covariance, alpha %g)" % (lab, v, case["alpha"]), True
+    if comparable:
+        for lab, v, w1, w2 in entries:
+            if w2 is not None and abs(v - w2) > (1e-6 + 1024 * EPS * (condK + kappa)) * max(abs(v), abs(w2)):
+                return "%s entry %r differs from the closed form %r (kernel form, test row in the span of the training means)" % (lab, v, w2), True
+        for lab, v, w1, w2 in entries:
+            if w1 is not None and abs(v - w1) > rt1 * max(abs(v), abs(w1)):
+                return ("%s entry %r differs from 1/(x pinv(Xprime) x^T) = %r with numpy's default rcond" % (lab, v, w1)), False
+    if span and comparable and rec_hi is not None and "error" not in rec_hi:
+        kappa_hi = _retained_kappa(Xs, 30 * case["alpha"])
+        if kappa_hi <= 1e10:
+            key = "lpr" if case["kind"] == "lpr" else "lcpr"
+            lo, hi = _flat(rec, key), _flat(rec_hi, key)
+            if lo.shape != hi.shape or np.any(hi < lo * (1 - 1e-6 - 1024 * EPS * (condK + kappa + kappa_hi))):
+                return "rigidities decrease when alpha grows from %g to %g" % (case["alpha"], 30 * case["alpha"]), True
+    return None, None
+
+
 # ---------------------------------------------------------------- run
 def run(ctx):
     po = C.proof_obligations(ctx.prop)
@@ -954,6 +1110,36 @@ def run(ctx):
                 cases.append(ca)
                 recs.append(outs_a[0])
                 hs.append(hints(ca))
+    # rank-deficient covariance with alpha below pinv's cut-off (round 5): the outputs are
+    # compared with numpy.linalg.pinv's truncated inverse and, for test rows in the span of the
+    # training means, with the kernel form of the closed form; Xprime and rank_diff go through Coq
+    stats.update(deficient_cases=0, deficient_span=0, deficient_skipped_illconditioned=0,
+                 pinv_not_called=0)
+    for _ in range(100 if ctx.quick else 800):
+        c = gen_deficient_case(ctx.rng, ctx.quick)
+        if c is None:
+            continue
+        r = run_impl(c)
+        r_hi = run_impl(dict(c, alpha=30 * c["alpha"])) if c["deficient"] == "span" else None
+        stats["deficient_cases"] += 1
+        stats["deficient_span"] += c["deficient"] == "span"
+        msg, is_prop = deficient_oracle(c, r, r_hi, stats)
+        called = r.get("pinv_called", True)
+        if msg:
+            rep = dict(case=c, observed=_pub(r), pinv_called_on_xprime=called)
+            if r_hi is not None:
+                rep["observed_larger_alpha"] = _pub(r_hi)
+            note = "" if called else " [numpy.linalg.pinv was not called during this call]"
+            if is_prop:
+                C.report_violation(ctx, "C20 fails on the implementation (rank-deficient covariance, alpha below pinv's cut-off): "
+                                   + msg + note, rep, found_input=True)
+            else:
+                C.report_violation(ctx, "correspondence broken (rank-deficient covariance, alpha below pinv's cut-off): "
+                                   + msg + note, rep, found_input=False)
+            continue
+        cases.append(c)
+        recs.append(r)
+        hs.append(hints(c))
     # metamorphic family (implementation only)
     for _ in range(150 if ctx.quick else 1500):
         metamorphic(ctx, ctx.rng, ctx.quick, stats)
@@ -1000,6 +1186,7 @@ def run(ctx):
             hs.append(h)
     stats["fresh_reference_fallbacks_to_reload"] = fresh.fallbacks
     fresh.close()
+    stats["pinv_not_called"] = sum(1 for r in recs if "error" not in r and not r.get("pinv_called", True))
     for i, (r, h) in enumerate(zip(recs, hs)):
         if "error" not in r and r.get("xprime") is not None:
             stats["intermediate_observed"] += 1
@@ -1136,6 +1323,11 @@ def replay(ctx, obj):
         print("replay: %d earlier call(s) made first" % len(c["history"]))
     else:
         r = run_impl(c)
+    if c.get("deficient"):
+        r_hi = run_impl(dict(c, alpha=30 * c["alpha"])) if c["deficient"] == "span" else None
+        msg, is_prop = deficient_oracle(c, r, r_hi)
+        print("replay:", msg or "property holds on this input now")
+        return 1 if msg else 0
     msg = oracle(c, r)
     if not msg and "factor" in obj:
         f = obj["factor"]
